@@ -71,7 +71,30 @@ Section Statements.
        ident_ok (pascal_case E n) = true /\ (alias_of alias_setting = AStar -> expr_uses (pascal_case E n) e = false)) ->
     run_module E m = construct E (alias_of alias_setting) e.
   Proof. intros a v m e. apply encapsulated_same_expr. Qed.
+
+  (* ---- the same without the text-level hypothesis: rule words are checked by the computable `rule_tokens_ok` (non-empty,
+     no blank / # / quote / backslash / line end; no `then` in the antecedent, no `with` in the consequent), and the
+     weight, when it is printed, survives Op.str / float() (`weight_ok`) *)
+  Theorem C15_rule_text_roundtrip : forall r, rule_tokens_ok r = true -> weight_ok E r -> rule_text_ok E r.
+  Proof. exact (@rule_text_roundtrip T N E). Qed.
+  Theorem C15_normalize_rule : forall r, rule_tokens_ok r = true -> weight_ok E r ->
+    normalize E (rule_val r) = Ok (rule_val (norm_rule E r)).
+  Proof. intros r H1 H2. apply normalize_rule, rule_text_roundtrip; assumption. Qed.
+  Theorem C15_construct_repr_engine_tokens : forall alias_setting e x, engine_wf_tokens E e ->
+    repr E (alias_of alias_setting) (engine_val e) = Ok x ->
+    construct E (alias_of alias_setting) x = Ok (engine_val (norm_engine E e)).
+  Proof. intros a e x Hw. apply C15_construct_repr_engine, engine_wf_of_tokens, Hw. Qed.
+  Theorem C15_representable_identical_tokens : forall alias_setting e x, engine_wf_tokens E e -> engine_rep E e ->
+    repr E (alias_of alias_setting) (engine_val e) = Ok x ->
+    construct E (alias_of alias_setting) x = Ok (engine_val e).
+  Proof. intros a e x Hw. apply C15_representable_identical, engine_wf_of_tokens, Hw. Qed.
 End Statements.
+Theorem C15_rule_text_roundtrip_full : rule_text_roundtrip_full.
+Proof. exact rule_text_roundtrip_full_holds. Qed.
+Print Assumptions C15_rule_text_roundtrip.
+Print Assumptions C15_construct_repr_engine_tokens.
+Print Assumptions C15_representable_identical_tokens.
+Print Assumptions C15_rule_text_roundtrip_full.
 Print Assumptions C15_construct_repr.
 Print Assumptions C15_normalize_engine.
 Print Assumptions C15_construct_repr_engine.
@@ -171,3 +194,36 @@ Proof.
   - exists [SImportStar "fuzzylite"; SClassInit "Engine" "engine" (ECall ["Engine"] [] [("name", EStr "Engine"); ("input_variables", EList []); ("output_variables", EList []); ("rule_blocks", EList [])])].
     split; vm_compute; reflexivity.
 Qed.
+
+(* the computable condition holds of the example engine's rules and rejects words with a blank, a quote, a comment sign
+   or the keyword that would end the clause *)
+Example C15_example_tokens :
+  forallb (fun b => forallb (fun r => rule_tokens_ok r) (bl_rules b)) (en_blocks (ex_engine true)) = true
+  /\ map (fun w => rule_tokens_ok {| ru_enabled := true; ru_weight := 1%float; ru_antecedent := ["temp"; "is"; w];
+                                      ru_consequent := ["power"; "is"; "low"]; ru_loaded := true; ru_degree := 0%float; ru_triggered := false |})
+         ["cold"; "co ld"; "it's"; "a#b"; "then"; "with"; ""] = [true; false; false; false; false; true; false]
+  /\ Forall (weight_ok E0) (flat_map (@bl_rules float) (en_blocks (ex_engine true))).
+Proof.
+  split; [vm_compute; reflexivity|]. split; [vm_compute; reflexivity|].
+  cbn [ex_engine en_blocks flat_map bl_rules app].
+  apply Forall_cons; [|apply Forall_cons; [|apply Forall_nil]]; unfold weight_ok; cbn [ex_rule ru_weight]; intros H; vm_compute in H |- *; try discriminate; split; reflexivity.
+Qed.
+(* hence the engine satisfies the hypotheses of the token-level theorems *)
+Ltac wf_tac2 :=
+  repeat first
+    [ exact I
+    | match goal with |- weight_ok _ _ => unfold weight_ok; cbn [ex_rule ru_weight]; intros H; vm_compute in H |- *; try discriminate; split; reflexivity end
+    | split | apply Forall_nil | apply Forall_cons
+    | progress unfold input_wf, output_wf, block_wf_tokens, rule_side_ok, term_wf, shape_wf, opt_plain, defuzzifier_wf, activation_wf,
+                      formula_ok, rule_loads, row_ok, fl_ok
+    | progress cbn [vi_min vi_max vi_terms vo_min vo_max vo_default vo_aggregation vo_defuzzifier vo_terms vi_name vo_name
+                    bl_conjunction bl_disjunction bl_implication bl_activation bl_rules en_inputs en_outputs en_blocks
+                    shape_args fst snd ex_rule ru_antecedent ru_consequent ru_weight]
+    | match goal with
+      | |- In _ _ => cbn [In]; tauto
+      | |- _ <> _ => discriminate
+      | |- _ = _ => vm_compute; reflexivity
+      | |- weight_ok _ _ => unfold weight_ok; cbn [ex_rule ru_weight]; intros H; vm_compute in H |- *; try discriminate; split; reflexivity
+      end ].
+Example C15_example_wf_tokens : engine_wf_tokens E0 (ex_engine true).
+Proof. unfold engine_wf_tokens, ex_engine. cbn [en_inputs en_outputs en_blocks]. do 5 (split; [wf_tac2|]). wf_tac2. Qed.
